@@ -52,8 +52,7 @@ class Exec(object):
             st = w.connect(op["c"], op=op)
         elif kind == "send":
             msg = self.resolve_msg(op["msg"])
-            st = w.send(op["c"], msg, rnd=op.get("rnd", (0, 0)), op=op)
-            st.op = dict(op, rmsg=msg)
+            st = w.send(op["c"], msg, rnd=op.get("rnd", (0, 0)), op=dict(op, rmsg=msg))
             for cid, fr in st.frames:
                 if cid == op["c"]:
                     if fr.get("type") == "claimed" and "mailbox" in fr:
